@@ -244,6 +244,108 @@ fn run_incfn(index: u64, ctx: &mut CaseCtx) -> Verdict {
     }
 }
 
+/// v2: inclusion functions written in INSTRUCTION OPERANDS, with the rules defined in a file of another
+/// directory. The path is resolved relative to the file that contains the text: the file of the instruction for an
+/// operand (also when the operand is matched through a sub-rule), the rule's file for a path in a production.
+fn run_rulefile_case(t: &mut Tape, ctx: &mut CaseCtx) -> Verdict {
+    ctx.label("rulefile-case");
+    let dirs = ["", "cpu/", "lib/isa/", "app/"];
+    let rule_dir = *t.pick(&dirs);
+    let use_dir = *t.pick(&dirs);
+    let mut files: Vec<(String, Vec<u8>)> = Vec::new();
+    let content = |d: &str| -> Vec<u8> {
+        match d {
+            "" => vec![0x10, 0x11],
+            "cpu/" => vec![0x20, 0x21, 0x22],
+            "lib/isa/" => vec![0x30],
+            _ => vec![0x40, 0x41],
+        }
+    };
+    for d in dirs {
+        files.push((format!("{}d.bin", d), content(d)));
+    }
+    let rules = "#subruledef operand\n{\n    #{v} => v\n    [{v}] => v\n}\n#ruledef\n{\n    ld {o: operand} => 0xaa @ o\n    raw {v} => 0xbb @ v\n    self => 0xcc @ incbin(\"d.bin\")\n    selfsub {o: operand} => 0xdd @ incbin(\"d.bin\") @ o\n}\n";
+    files.push((format!("{}rules.asm", rule_dir), rules.as_bytes().to_vec()));
+    let mut body = String::new();
+    let mut expect: Vec<u8> = Vec::new();
+    let here = content(use_dir);
+    let there = content(rule_dir);
+    let n = t.urange(1, 5);
+    for _ in 0..n {
+        match t.draw(7) {
+            0 => {
+                body.push_str("ld #incbin(\"d.bin\")\n");
+                expect.push(0xaa);
+                expect.extend(&here);
+            }
+            1 => {
+                body.push_str("ld [incbin(\"d.bin\")]\n");
+                expect.push(0xaa);
+                expect.extend(&here);
+            }
+            2 => {
+                body.push_str("raw incbin(\"d.bin\")\n");
+                expect.push(0xbb);
+                expect.extend(&here);
+            }
+            3 => {
+                body.push_str("#d incbin(\"d.bin\")\n");
+                expect.extend(&here);
+            }
+            4 => {
+                body.push_str("self\n");
+                expect.push(0xcc);
+                expect.extend(&there);
+            }
+            5 => {
+                body.push_str("selfsub #incbin(\"d.bin\")\n");
+                expect.push(0xdd);
+                expect.extend(&there);
+                expect.extend(&here);
+            }
+            _ => {
+                body.push_str("ld #incbin(\"./d.bin\")\n");
+                expect.push(0xaa);
+                expect.extend(&here);
+            }
+        }
+    }
+    // main.asm includes the rules (and the user file when that lives elsewhere)
+    let mut main = format!("#include \"{}rules.asm\"\n", rule_dir);
+    if use_dir.is_empty() {
+        main.push_str(&body);
+    } else {
+        main.push_str(&format!("#include \"{}prog.asm\"\n", use_dir));
+        files.push((format!("{}prog.asm", use_dir), body.clone().into_bytes()));
+    }
+    files.push(("main.asm".to_string(), main.clone().into_bytes()));
+    let mut h = crate::engine::fnv(main.as_bytes());
+    h = crate::engine::mix(h, crate::engine::fnv(body.as_bytes()));
+    h = crate::engine::mix(h, crate::engine::fnv(rule_dir.as_bytes()));
+    ctx.hash = h;
+    ctx.nontrivial = rule_dir != use_dir;
+    let render = || json!({"rules_in": format!("{}rules.asm", rule_dir), "instructions_in": if use_dir.is_empty() { "main.asm".to_string() } else { format!("{}prog.asm", use_dir) }, "main.asm": main, "instructions": body, "rules": rules});
+    ctx.render(render);
+    let mut fs = MemFs::from_files(&files);
+    let o = sut::assemble(&mut fs, &["main.asm"], &sut::Opts::default());
+    ctx.evals += 1;
+    let want_bits: Vec<bool> = expect.iter().flat_map(|b| (0..8).rev().map(move |k| (b >> k) & 1 == 1)).collect();
+    let res = match &o {
+        sut::AsmOutcome::Ok(ok) if ok.bits == want_bits => None,
+        sut::AsmOutcome::Ok(ok) => Some(("rulefile|wrong-file-included".to_string(), format!("expected {} , assembler {}", sut::bits_hex(&want_bits), sut::bits_hex(&ok.bits)))),
+        sut::AsmOutcome::Panic(p) => Some((format!("rulefile|panic {}", sut::panic_site(p)), p.clone())),
+        other => Some(("rulefile|valid-tree-rejected".to_string(), other.brief())),
+    };
+    match res {
+        None => Verdict::Pass,
+        Some((c, d)) => {
+            ctx.want_render = true;
+            ctx.render(render);
+            Verdict::fail(c, d)
+        }
+    }
+}
+
 impl Property for C14 {
     fn id(&self) -> &'static str {
         "C14"
@@ -284,6 +386,9 @@ impl Property for C14 {
         tier.pick(200_000, 1_000_000)
     }
     fn run(&self, t: &mut Tape, ctx: &mut CaseCtx) -> Verdict {
+        if crate::engine::gen_version() >= 2 && t.chance(1, 10) {
+            return run_rulefile_case(t, ctx);
+        }
         let tr = gen_tree(t);
         let std_names: HashSet<String> = sut::std_files().iter().map(|f| f.0.clone()).collect();
         let model = expand(&tr.files, &std_names, &tr.root);
